@@ -180,7 +180,7 @@ def feature_base(draw, key, case):
         add_projections(draw, case)
     elif pre == "noise" and key != "noise.quit_on_noise_level":
         up["noise.quit_on_noise_level"] = True
-        if key == "noise.scale_factor_for_quit":
+        if key == "noise.scale_factor_for_quit" and "noise.multiplicative_noise_level" not in up:
             up["noise.additive_noise_level"] = 1e-3
 
 
@@ -294,8 +294,12 @@ def cases(draw):
             mut.setdefault("params", {})[key] = v
             if boundary:
                 tags.append("boundary")
-            if (key, v) in EITHER:
-                cls = "either"
+        sanitize(base, mut, noise)
+        if any((k, v) in EITHER for k, v in mut.get("params", {}).items()) or \
+                any((k, v) in EITHER for k, v in base["up"].items()):
+            cls = "either"
+        if not any(b for (_k, b) in [(k, True) for k in mut.get("params", {})]):
+            tags = [t for t in tags if t != "boundary"]
     elif cls == "invalid":
         what = draw(st.sampled_from(["rhobeg", "rhoend", "rhobeg<=rhoend", "npt", "maxfun", "gap", "gap",
                                      "reg_args", "param_range", "param_range", "param_type", "param_type", "contradictory"]))
@@ -489,6 +493,37 @@ def known_hard_npt_growth(case, clause, detail):
         "ZeroDivisionError" in detail
 
 
+def known_subnormal_gap(case, clause, detail):
+    b = case["base"]
+    lo = b.get("lower") or []
+    up = b.get("upper") or []
+    x0 = b["x0"]
+    sub = any(0 < abs(x0[i] - v[i]) < 1e-150 for v in (lo, up) if v for i in range(len(x0)))
+    return sub and "array must not contain infs or NaNs" in detail
+
+
+def sanitize(base, mut, noise):
+    """Last line of generator soundness: the final combination must be valid by the harness's own oracle."""
+    n, npt = base["n"], base["npt"]
+    up = base["up"]
+    params = mut.get("params", {})
+    merged = dict(up)
+    merged.update(params)
+    if merged.get("restarts.max_npt", npt) < npt:
+        (params if "restarts.max_npt" in params else up)["restarts.max_npt"] = npt
+    for key in list(params):
+        trial = dict(up)
+        trial.update(params)
+        if contradictory(trial, n, npt, noise) or conflicts(dict(up, **{k: v for k, v in params.items() if k != key}), key, params[key], base) \
+                or not param_ok(key, params[key], npt):
+            params.pop(key)
+    if contradictory(dict(up, **params), n, npt, noise) or any(not param_ok(k, v, npt) for k, v in up.items()):
+        base["up"] = {k: v for k, v in up.items() if k.startswith("logging.")}
+        mut.pop("params", None)
+    if "params" in mut and not mut["params"]:
+        mut.pop("params")
+
+
 PROFILES = {"args": Profile("args", cases, run, quick=4000, thorough=100000, timeout=120)}
 KNOWN = {"projections-npt": known_projection_npt,
-         "hard-restart-npt-growth": known_hard_npt_growth}
+         "hard-restart-npt-growth": known_hard_npt_growth, "subnormal-gap": known_subnormal_gap}
